@@ -70,3 +70,12 @@ func (n *Namer) Quad(q rdf.Quad) Q {
 	}
 	return r
 }
+
+// LiteralString renders a literal the way TermStr does (lang "" = no language tag).
+func LiteralString(lex, dt, lang string) string {
+	s := fmt.Sprintf("%q", lex)
+	if lang != "" {
+		return s + "@" + lang + "^^<" + dt + ">"
+	}
+	return s + "^^<" + dt + ">"
+}
